@@ -30,14 +30,14 @@ func lens(g *bufGen) []int {
 	set := map[int]bool{}
 	top := 1100
 	if g.Thorough() {
-		top = 4200
+		top = 3000
 	}
 	for l := 0; l <= top; l++ {
 		set[l] = true
 	}
 	limit := 8300
 	if g.Thorough() {
-		limit = 16400
+		limit = 10300
 	}
 	for _, m := range []int{64, 128, 192, 256, 320, 384, 512} {
 		step := m
@@ -54,8 +54,8 @@ func lens(g *bufGen) []int {
 		}
 	}
 	if g.Thorough() { // the AVX2 main loops consume 512 bytes per iteration: long inputs around its multiples
-		for v := 16896; v <= 70144; v += 512 {
-			for d := -2; d <= 2; d++ {
+		for v := 10752; v <= 70144; v += 1024 {
+			for d := -1; d <= 1; d++ {
 				set[v+d] = true
 			}
 		}
@@ -86,6 +86,7 @@ func mkDst(r *hx.Rand, g *bufGen, need int) (dst []byte, spare int) {
 
 func emit3(g *bufGen, format string, a ...any) {
 	for _, p := range []string{"asm", "gen", "off"} {
+		g.Stat("path." + p)
 		g.Emit("%s path=%s", fmt.Sprintf(format, a...), p)
 	}
 }
@@ -313,7 +314,7 @@ func gen(gg *hx.Gen) {
 		g.Stat("ad.every-0..600")
 	}
 	// random AD lengths up to ~2000 and the residue classes of the special constant 13
-	nad := g.Count(120, 3000)
+	nad := g.Count(120, 1500)
 	for i := 0; i < nad; i++ {
 		one(r.Intn(400), r.Intn(2049), r.Intn(2))
 		g.Stat("ad.random<=2048")
@@ -346,7 +347,7 @@ func gen(gg *hx.Gen) {
 			g.Stat("alias.pt+k*65536")
 		}
 	}
-	extra := g.Count(300, 2500)
+	extra := g.Count(300, 1500)
 	for i := 0; i < extra; i++ {
 		top := 3000
 		if g.Thorough() && r.Chance(1, 20) {
